@@ -268,7 +268,16 @@ func (in *Interp) selectOp(fr *frame, instr *ssa.Select) Value {
 		}
 		return res
 	}
-	if nd, _ := in.hostState["selectnondet"].(bool); nd {
+	nd, _ := in.hostState["selectnondet"].(bool)
+	if b, ok := in.hostState["selectbudget"].(int); ok && nd {
+		// bounded unfairness: only the first b selects choose freely, later ones take the first ready case
+		if b <= 0 {
+			nd = false
+		} else {
+			in.hostState["selectbudget"] = b - 1
+		}
+	}
+	if nd {
 		// evaluate the readiness of every case (this also lets model channels observe the poll),
 		// then explore each ready case
 		var readyIdx []int
